@@ -628,14 +628,14 @@ pub fn run_which(ctx: &Ctx, which: Which) -> Report {
         }
     });
     // wl 2: rule-only zones from random interleaving and tie rules
-    run_cases(ctx, &mut rep, 2, ctx.n(6000, 300_000), |l, rng, _| {
+    run_cases(ctx, &mut rep, 2, ctx.n(20_000, 600_000), |l, rng, _| {
         let (a, _) = gen_interleaving(rng);
         let z = rule_only(&a);
         check_zone(l, which, &z, rng, 8, 3, ctx.inner(60) as usize);
     });
     // wl 3: generated zones of every shape
     let cfg = ZoneCfg::search();
-    run_cases(ctx, &mut rep, 3, ctx.n(30_000, 1_500_000), |l, rng, i| {
+    run_cases(ctx, &mut rep, 3, ctx.n(100_000, 3_000_000), |l, rng, i| {
         let z = gen_zone(rng, &cfg);
         check_zone(l, which, &z, rng, 6, 4, ctx.inner(40) as usize);
         if i % 9000 == 5 {
@@ -643,7 +643,7 @@ pub fn run_which(ctx: &Ctx, which: Which) -> Report {
         }
     });
     // wl 4: table-only zones with many close transitions and large offset jumps (3+ overlapping candidates)
-    run_cases(ctx, &mut rep, 4, ctx.n(6000, 300_000), |l, rng, _| {
+    run_cases(ctx, &mut rep, 4, ctx.n(20_000, 600_000), |l, rng, _| {
         let mut c = ZoneCfg::search();
         c.rule = if rng.chance(1, 2) { RuleMode::None } else { RuleMode::Fixed };
         c.leaps = rng.chance(1, 3);
